@@ -160,16 +160,63 @@ func doPkg(m *imp, dir, path string) (*types.Package, error) {
 	return p, nil
 }
 
-// plain (non-atomic) fields whose accesses are logged: "Type.field"
-var watch = map[string]bool{
-	"Node.next": true, "Node.prev": true, "List.len": true,
-	"Manager.items": true, "Manager.roundRobinIndex": true,
-	"Response.res": true,
-	"worker.eventLoopSignal": true, "worker.errorChan": true, "worker.tickers": true, "worker.tickerStops": true,
-	"worker.ctx": true, "worker.cancel": true,
-	"Queue.readChunk": true, "Queue.writeChunk": true,
-	"PriorityQueue.insertionCount": true, "PriorityQueue.internal": true,
-	"job.ackId": true, "job.queue": true,
+// Plain (non-atomic) memory whose accesses are logged: every field of a struct type declared in
+// the module, except fields that are themselves synchronisation objects (sync.*, sync/atomic.*:
+// they are only used through their methods, which the shims log).
+func syncTyped(t types.Type) bool {
+	for {
+		switch x := t.(type) {
+		case *types.Pointer:
+			t = x.Elem()
+			continue
+		case *types.Array:
+			t = x.Elem()
+			continue
+		case *types.Named:
+			if o := x.Obj(); o != nil && o.Pkg() != nil {
+				switch o.Pkg().Path() {
+				case "sync", "sync/atomic":
+					return true
+				}
+			}
+		}
+		return false
+	}
+}
+
+// selectors that only compute an address (the X of a further selection on a struct value, the
+// operand of &): not memory accesses
+var addrOnly = map[*ast.SelectorExpr]bool{}
+
+func markAddrOnly(f *ast.File, info *types.Info) {
+	strip := func(e ast.Expr) ast.Expr {
+		for {
+			if p, ok := e.(*ast.ParenExpr); ok {
+				e = p.X
+				continue
+			}
+			return e
+		}
+	}
+	ast.Inspect(f, func(n ast.Node) bool {
+		switch x := n.(type) {
+		case *ast.SelectorExpr:
+			if c, ok := strip(x.X).(*ast.SelectorExpr); ok {
+				if tv, ok := info.Types[c]; ok && tv.Type != nil {
+					if _, isStruct := tv.Type.Underlying().(*types.Struct); isStruct {
+						addrOnly[c] = true
+					}
+				}
+			}
+		case *ast.UnaryExpr:
+			if x.Op == token.AND {
+				if c, ok := strip(x.X).(*ast.SelectorExpr); ok {
+					addrOnly[c] = true
+				}
+			}
+		}
+		return true
+	})
 }
 
 func typeBase(t types.Type) string {
@@ -203,10 +250,10 @@ func watchedSel(se *ast.SelectorExpr, info *types.Info) (string, ast.Expr, bool)
 		}
 		recv = st.Field(i).Type()
 	}
-	name := typeBase(deref(recv)) + "." + v.Name()
-	if !watch[name] {
+	if v.Pkg() == nil || !strings.HasPrefix(v.Pkg().Path(), mod) || syncTyped(v.Type()) || addrOnly[se] {
 		return "", nil, false
 	}
+	name := typeBase(deref(recv)) + "." + v.Name()
 	var owner ast.Expr = se.X
 	if tv, ok := info.Types[se.X]; ok && tv.Type != nil {
 		if _, isPtr := tv.Type.Underlying().(*types.Pointer); !isPtr {
@@ -366,6 +413,7 @@ func plainNotesPart(s ast.Stmt, late bool, file, fn string, info *types.Info) []
 
 func instrumentPlain(f *ast.File, file string, info *types.Info) bool {
 	any := false
+	markAddrOnly(f, info)
 	var doList func(list []ast.Stmt, fn string) []ast.Stmt
 	var doStmt func(s ast.Stmt, fn string)
 	doList = func(list []ast.Stmt, fn string) []ast.Stmt {
